@@ -199,6 +199,19 @@ CLAIMED["C15"] = dict(
          "142d0fb empty range IndexError). Trusted: soundfile read contract, scipy stft / resample time vectors, xarray constructor.",
     technique=TECH + " for the arithmetic and axis claims; bounded stand-in (labelled bounded) for file I/O",
 )
+CLAIMED["C10"] = dict(
+    level="other",
+    text="Deductive part: the real label_to_tags is proved equal to the documented cascade (written out from its docstring) for all "
+         "option combinations and unbounded mappings, outside one keyed known-finding region; the import conversions (segment / bbox "
+         "to annotation: seconds or samples over samplerate/time_expansion, factor applied exactly once, frequencies multiplied, tags "
+         "by the cascade) and the sample-index / bbox guard functions are proved from their real bodies. The export label cascade "
+         "(string joins), sequence/annotation order and skipping, Nyquist cap and the round trip are decided by the bounded stand-in "
+         "crowsetta_options on real crowsetta objects (full boolean option cube).",
+    note="Two defects fixed in /repo (03ff919 explicit key lost on a key_mapping miss; ed18ce2 duplicate value_only keyword); the "
+         "documented-vs-coded precedence of tag_mapping against an already-set term is a known finding (not repaired: it would change "
+         "behaviour callers may rely on). String building is outside the solver-friendly subset (uninterpreted strings, equality only).",
+    technique=TECH + "; symbolic dictionaries; known-finding regions excluded by sibling obligations",
+)
 ALL = [f"C{n:02d}" for n in range(1, 21)]
 NOT_APPLICABLE = {p: "check not built yet in this session (work in progress; see DESIGN.md section 12 build order)"
                   for p in ALL if p not in CLAIMED}
